@@ -616,13 +616,15 @@ def intern_exact(ck, F, rule="COVER-style"):
     for name in ("get_font_index", "get_fill_index", "get_border_index", "get_num_fmt_index", "get_style_index"):
         b = ck.need(F.one, "Styles::" + name)
         cmps = []
-        for bi, t in b.calls():
-            q = b.callee_q(t) or ""
-            last = q.rsplit("::", 1)[-1]
-            if place_proj(t["dest"]) or b.locals[t["dest"]["l"]] != "bool":
-                continue
-            # only comparisons that feed a branch
-            cmps.append((bi, q, last))
+        # the function and the closures written in it (`iter().position(|f| f == font)` compares inside one)
+        bodies = [b] + [F.body(p) for p in sorted(F.body_paths()) if p != b.path and F.heads[p].get("root") == b.path]
+        for bb in bodies:
+            for bi, t in bb.calls():
+                q = bb.callee_q(t) or ""
+                last = q.rsplit("::", 1)[-1]
+                if place_proj(t["dest"]) or bb.locals[t["dest"]["l"]] != "bool":
+                    continue
+                cmps.append((bi if bb is b else 0, q, last))
         # bin Eq on scalars is exact by construction
         loose = [(bi, q) for bi, q, last in cmps if last not in ("eq", "ne", "is_none", "is_some", "is_empty") or
                  not (q.startswith("std::cmp::") or "PartialEq" in q or "cmp::impls" in q or "option::Option" in q or "str::traits" in q or "string::String" in q or "ironcalc_base::types" in q)]
